@@ -132,3 +132,67 @@ func (c *Collector) Write(path string) error {
 	}
 	return os.WriteFile(path, b, 0o644)
 }
+
+// Recorder keeps the smallest failing case seen as a replay file.
+type Recorder struct {
+	Dir      string
+	Prop     string
+	Engine   string
+	Seed     string
+	bestSize int
+	BestPath string
+	BestMsg  string
+	mu       sync.Mutex
+}
+
+type ReplayFile struct {
+	Property string          `json:"property"`
+	Engine   string          `json:"engine"`
+	Case     json.RawMessage `json:"case"`
+	Msg      string          `json:"msg"`
+	Seed     string          `json:"seed,omitempty"`
+}
+
+func (r *Recorder) Record(caseJSON []byte, msg string) {
+	r.mu.Lock()
+	defer r.mu.Unlock()
+	if r.Dir == "" {
+		return
+	}
+	if r.BestPath != "" && len(caseJSON) > r.bestSize {
+		return
+	}
+	rf := ReplayFile{Property: r.Prop, Engine: r.Engine, Case: caseJSON, Msg: msg, Seed: r.Seed}
+	b, _ := json.MarshalIndent(&rf, "", " ")
+	path := r.Dir + "/" + r.Prop + "-" + Hash(string(caseJSON)) + ".json"
+	if os.WriteFile(path, b, 0o644) == nil {
+		if r.BestPath != "" && r.BestPath != path {
+			os.Remove(r.BestPath)
+		}
+		r.bestSize, r.BestPath, r.BestMsg = len(caseJSON), path, msg
+	}
+}
+
+// Flush reports the recorded violation to the collector.
+func (r *Recorder) Flush(c *Collector) {
+	r.mu.Lock()
+	defer r.mu.Unlock()
+	if r.BestPath != "" {
+		c.Violation(Violation{Msg: r.BestMsg, Replay: r.BestPath, Size: r.bestSize})
+	}
+}
+
+func LoadReplay(path string, into any) (*ReplayFile, error) {
+	b, err := os.ReadFile(path)
+	if err != nil {
+		return nil, err
+	}
+	var rf ReplayFile
+	if err := json.Unmarshal(b, &rf); err != nil {
+		return nil, err
+	}
+	if err := json.Unmarshal(rf.Case, into); err != nil {
+		return nil, err
+	}
+	return &rf, nil
+}
